@@ -42,8 +42,12 @@ func init() {
 	DeclareUF("coin_amt", []Sort{SStr}, SInt, nil)
 	DeclareUF("coinstr", []Sort{SInt, SStr}, SStr, func(a *Term) []*Term {
 		amt, d := a.Args[0], a.Args[1]
-		return []*Term{Implies(And(Le(MkI(0), amt), denomOK(d)),
-			And(App("coinok", a), Eq(App("coin_denom", a), d), Eq(App("coin_amt", a), amt), Eq(a, Concat(FromInt(amt), d))))}
+		// Coin.String() is always <amount><denom>; it parses back iff the denom is valid and amount >= 0
+		return []*Term{Implies(Le(MkI(0), amt), Eq(a, Concat(FromInt(amt), d))),
+			Implies(Lt(amt, MkI(0)), Eq(a, Concat(MkStr("-"), FromInt(Neg(amt)), d))),
+			Implies(And(Le(MkI(0), amt), denomOK(d)),
+				And(App("coinok", a), Eq(App("coin_denom", a), d), Eq(App("coin_amt", a), amt))),
+			Implies(Not(denomOK(d)), Not(App("coinok", a)))}
 	})
 	reg(sdkT+".ValidateDenom", func(c *CallCtx, a []Value) []Outcome {
 		ok := denomOK(a[0].(*Term))
@@ -74,6 +78,38 @@ func init() {
 				if res != nil {
 					f.Locals[f.Info.idx[res]] = tuple(mkCoin(st, MkStr(""), MkI(0)), newErr("invalid coin", nil))
 				}
+			}},
+		}
+	})
+	// ParseCoinsNormalized under A-COINS1: the string is a single canonical coin or does not parse
+	reg(sdkT+".ParseCoinsNormalized", func(c *CallCtx, a []Value) []Outcome {
+		s := a[0].(*Term)
+		var ok, d, am *Term
+		if s.Op == "uf" && s.SV == "coinstr" {
+			d, am = s.Args[1], s.Args[0]
+			ok = And(Le(MkI(0), am), denomOK(d))
+		} else {
+			ok, d, am = App("coinok", s), App("coin_denom", s), App("coin_amt", s)
+		}
+		res := c.Res
+		setRes := func(st *State, v Value) {
+			if res != nil {
+				f := st.top()
+				f.Locals[f.Info.idx[res]] = v
+			}
+		}
+		empty := Eq(Len(s), MkI(0))
+		return []Outcome{
+			{Cond: And(ok, Lt(MkI(0), am)), Do: func(st *State) {
+				id := st.alloc(&ArrayV{[]Value{mkCoin(st, d, am)}})
+				setRes(st, tuple(&SliceV{Arr: id, Len: 1, Cap: 1}, &IfaceV{}))
+			}},
+			{Cond: Or(And(ok, Eq(am, MkI(0))), empty), Do: func(st *State) {
+				id := st.alloc(&ArrayV{[]Value{}})
+				setRes(st, tuple(&SliceV{Arr: id, Len: 0, Cap: 0}, &IfaceV{}))
+			}},
+			{Cond: And(Not(ok), Not(empty)), Do: func(st *State) {
+				setRes(st, tuple(&SliceV{Nil: true}, newErr("invalid coins", nil)))
 			}},
 		}
 	})
